@@ -1,8 +1,9 @@
 // Command corrserver: C09 / C13 / C20 correspondence against a real server.Run instance.
-//   req <mode> <d> <b> <METHOD> <hex body>   => <status> [<code field> | ok | badproof]
-//   metrics <METHOD:status,…>                 => scraped totals ;inflight=<gauge>
-//   scrape-during-load <open>                 => ok | <what went wrong>
-//   alive                                     => ok
+//
+//	req <mode> <d> <b> <METHOD> <hex body>   => <status> [<code field> | ok | badproof]
+//	metrics <METHOD:status,…>                 => scraped totals ;inflight=<gauge>
+//	scrape-during-load <open>                 => ok | <what went wrong>
+//	alive                                     => ok
 package main
 
 import (
